@@ -8,7 +8,8 @@
    q = total on. *)
 From Coq Require Import List ZArith NArith Bool Arith.
 From EasyML Require Import Base.Sx Model.Shape Model.Tensor Model.TSource Model.ShapeIter
-  Model.MatrixIter Model.Transform Proofs.ShapeP Proofs.OdometerP Proofs.C09P.
+  Model.MatrixIter Model.Transform Proofs.ShapeP Proofs.C01P Proofs.OdometerP Proofs.C09P
+  Proofs.C09OwnedP.
 Import ListNotations.
 Open Scope N_scope.
 
@@ -87,6 +88,33 @@ Proof. exact @tensor_iter_mut_distinct. Qed.
 Theorem C09_owned_distinct : forall A dflt (s : tsrc A) k,
   NoDup (map fst (somes (map fst (fst (drive (ti_next_owned dflt) ti_len k (tensor_iter_from s)))))).
 Proof. exact @tensor_iter_owned_distinct. Qed.
+
+(* owning iterators move each ORIGINAL value out exactly once and leave only placeholders: call
+   number q returns the original element at the q-th index; after k calls the first k places hold
+   the placeholder and every other place is untouched.  For any family of sources whose in-range
+   writes behave like a lens (the TensorMut contract), and in particular for Tensor *)
+Theorem C09_owned_moves_once : forall A (dflt : A) (P : tsrc A -> Prop),
+  (forall s idx v, P s -> in_range idx (lens_of (src_shape s)) ->
+     exists s', src_set s idx v = Some s' /\ P s' /\ src_shape s' = src_shape s /\
+                src_get s' idx = Some v /\
+                forall idx', in_range idx' (lens_of (src_shape s)) -> idx' <> idx ->
+                             src_get s' idx' = src_get s idx') ->
+  forall (s : tsrc A) k, P s -> lens_pos (lens_of (src_shape s)) ->
+  let r := drive (ti_next_owned dflt) ti_len k (tensor_iter_from s) in
+  fst r = map (fun j => oexpected s (N.of_nat j)) (seq 0 k) /\
+  forall x, in_range x (lens_of (src_shape s)) ->
+    src_get (ti_source (snd r)) x =
+    if flat x (lens_of (src_shape s)) <? N.of_nat k then Some dflt else src_get s x.
+Proof. exact @owned_moves_once. Qed.
+
+Theorem C09_tensor_owned_moves_once : forall A (dflt : A) (t : tensor A) k, tensor_inv t ->
+  let s := TBase t in
+  let r := drive (ti_next_owned dflt) ti_len k (tensor_iter_from s) in
+  fst r = map (fun j => oexpected s (N.of_nat j)) (seq 0 k) /\
+  forall x, in_range x (lens_of (t_shape t)) ->
+    src_get (ti_source (snd r)) x =
+    if flat x (lens_of (t_shape t)) <? N.of_nat k then Some dflt else t_get t x.
+Proof. exact @tensor_owned_moves_once. Qed.
 
 (* matrix row-major and column-major iterators over any source, empty (0xN, Nx0) ones included:
    call number q returns the element at (q / columns, q mod columns) resp. (q mod rows, q / rows)
@@ -187,6 +215,8 @@ Print Assumptions C09_with_index_true.
 Print Assumptions C09_with_index_true_owned.
 Print Assumptions C09_mut_distinct.
 Print Assumptions C09_owned_distinct.
+Print Assumptions C09_owned_moves_once.
+Print Assumptions C09_tensor_owned_moves_once.
 Print Assumptions C09_row_major.
 Print Assumptions C09_column_major.
 Print Assumptions C09_column.
